@@ -192,6 +192,11 @@ func VerifH_C17_ExtractDeepNames() {
 	vFSMkdir(out)
 	vFSMkdir(outside)
 	vFSWriteFile(outside+"/secret", []byte("secret"))
+	// directories that already exist behind the possible symlink targets, so that a name with two
+	// separators through the link has a real directory as its parent
+	for _, d := range []string{outside + "/a", outside + "/b", vFSPath("a"), vFSPath("b")} {
+		vFSMkdir(d)
+	}
 	targets := []string{"..", "../outside", "."}
 	symL, _, err := builder.BuildUnixFSSymlink(targets[vChoose("target", len(targets))], ls)
 	vAssert("symlink-built", err == nil)
